@@ -346,6 +346,39 @@ func H07_ops() {
 }
 
 // H07_robust: arbitrary program bytes never panic or hang.
+// H07_mixed: %i, %l and %s with every mix of string and integer parameters (%i
+// increments the first two parameters that are integers, whatever the other is).
+func H07_mixed() {
+	kinds := vsymChoice("kinds", 4) // bit i set: parameter i+1 is a string
+	var args []interface{}
+	var seg [2]string
+	for i := 0; i < 2; i++ {
+		pn := "%p" + string(rune('1'+i))
+		if kinds&(1<<uint(i)) != 0 {
+			args = append(args, vsymString("s"+string(rune('1'+i)), vsymChoice("slen"+string(rune('1'+i)), 3)))
+			if vsymChoice("len"+string(rune('1'+i)), 2) == 1 {
+				seg[i] = pn + "%l%d;"
+			} else {
+				seg[i] = pn + "%s;"
+			}
+		} else {
+			v := vsymInt("p" + string(rune('1'+i)))
+			vsymAssume(vsymAnd(v >= 0, v <= vsymParam("maxint", 1023)))
+			args = append(args, v)
+			seg[i] = pn + "%d;"
+		}
+	}
+	prog := "%i" + seg[0] + seg[1]
+	switch vsymChoice("order", 3) {
+	case 1:
+		prog = "%i" + seg[1] + seg[0]
+	case 2:
+		prog = seg[0] + seg[1]
+	}
+	rtReset()
+	h07Compare(prog, args)
+}
+
 func H07_robust() {
 	n := vsymParam("n", 4)
 	prog := vsymString("prog", n)
